@@ -826,7 +826,12 @@ def judge(case, hist, plan, outs, died, err):
             fails.append(Fail(what, "error_" + err_sig(o.val), "%s: MIR error %s" % (what, o.val[:300])))
             continue
         if what == "proj":
-            p = json.loads(o.val)
+            try:
+                p = json.loads(o.val.decode("latin-1"))
+            except ValueError:
+                fails.append(Fail("proj", "unparsable", "context %d: the projection is not well-formed (damaged names?)" % (pl[1] + 1)))
+                dead_ctx.add(pl[1])
+                continue
             res["proj"][pl[1]] = p
             nf = hist["ctxs"][pl[1]]["nf"]
             d = diff(expect(nf), p)
